@@ -26,10 +26,25 @@ import (
 var fingerprintsJSON []byte
 
 type fnPrint struct {
-	Pkg   string   `json:"pkg"`
-	Recv  string   `json:"recv,omitempty"`
-	Sig   string   `json:"sig"`
-	Feats []string `json:"feats"`
+	Pkg    string   `json:"pkg"`
+	Recv   string   `json:"recv,omitempty"`
+	Sig    string   `json:"sig"`
+	Params []string `json:"params,omitempty"` // upstream names of receiver and parameters, in order
+	Feats  []string `json:"feats"`
+}
+
+var refPrints map[string]fnPrint
+
+func refParamNames(canonical string) ([]string, bool) {
+	if refPrints == nil {
+		refPrints = map[string]fnPrint{}
+		json.Unmarshal(fingerprintsJSON, &refPrints)
+	}
+	fp, ok := refPrints[canonical]
+	if !ok {
+		return nil, false
+	}
+	return fp.Params, true
 }
 
 var fingerprintMatches int
@@ -80,7 +95,7 @@ func (p *Program) features(fn *ssa.Function, known map[string]bool) []string {
 			for _, in := range b.Instrs {
 				switch x := in.(type) {
 				case *ssa.FieldAddr:
-					if fr, ok := fieldRefOf(x.X.Type(), x.Field); ok {
+					if fr, ok := fieldRefOfAddr(x); ok {
 						_, w, _ := addrUses(x, map[ssa.Value]bool{})
 						k := "field:" + fr.Pkg + "." + fr.Type + "." + canonicalField(fr.Pkg+"."+fr.Type+"."+fr.Field)
 						set[k] = true
@@ -172,7 +187,11 @@ func (p *Program) computeFingerprints() map[string]fnPrint {
 		if fn.Parent() != nil || fn.Pkg == nil || fn.Synthetic != "" {
 			continue
 		}
-		out[p.CanonFuncName(fn)] = fnPrint{Pkg: fn.Pkg.Pkg.Name(), Recv: recvCanon(fn), Sig: sigString(fn), Feats: p.features(fn, known)}
+		var pn []string
+		for _, prm := range fn.Params {
+			pn = append(pn, prm.Name())
+		}
+		out[p.CanonFuncName(fn)] = fnPrint{Pkg: fn.Pkg.Pkg.Name(), Recv: recvCanon(fn), Sig: sigString(fn), Params: pn, Feats: p.features(fn, known)}
 	}
 	return out
 }
@@ -354,5 +373,183 @@ func (p *Program) aliasAnon(fn *ssa.Function, canonical string) {
 			p.byName[n] = a
 		}
 		p.aliasAnon(a, n)
+	}
+}
+
+// ---- struct fields ------------------------------------------------------------------------------------------
+//
+// The same last resort for renamed unexported struct fields: fieldprints.json records, for every field of the
+// library's structs that some function touches, its type and which functions read and write it. A field the rules
+// name that no longer exists is matched against the struct's unclaimed fields of the same type by who uses them.
+
+//go:embed fieldprints.json
+var fieldprintsJSON []byte
+
+type fieldPrint struct {
+	Typ   string   `json:"typ"`
+	Users []string `json:"users"` // "r:<canonical function>" / "w:<canonical function>"
+}
+
+var fieldMatches int
+
+// declaredIn finds the struct (the named struct itself or a grouping part held by value) that declares the field,
+// and the field's type.
+func (p *Program) declaredIn(rel, typ, field string) (*types.Named, types.Type) {
+	n := p.NamedType(rel, typ)
+	if n == nil {
+		return nil, nil
+	}
+	var res *types.Named
+	var ft types.Type
+	var walk func(n *types.Named, depth int)
+	walk = func(n *types.Named, depth int) {
+		s, ok := n.Underlying().(*types.Struct)
+		if !ok || depth > 3 {
+			return
+		}
+		for i := 0; i < s.NumFields(); i++ {
+			f := s.Field(i)
+			if embeddedCanon(f) == field || f.Name() == field {
+				if res == nil {
+					res, ft = n, f.Type()
+				}
+			}
+			if pn, isN := f.Type().(*types.Named); isN && pn.Obj().Pkg() == n.Obj().Pkg() && !pn.Obj().Exported() {
+				if _, isStruct := pn.Underlying().(*types.Struct); isStruct {
+					walk(pn, depth+1)
+				}
+			}
+		}
+	}
+	walk(n, 0)
+	return res, ft
+}
+
+func relOf(pkgName string) string {
+	if pkgName == "failsafe" {
+		return ""
+	}
+	for _, rel := range scopePkgs {
+		if rel == pkgName || strings.HasSuffix(rel, "/"+pkgName) {
+			return rel
+		}
+	}
+	return pkgName
+}
+
+func (p *Program) fieldUsers(ix *Index, fr FieldRef) []string {
+	set := map[string]bool{}
+	for _, a := range ix.Accesses[fr] {
+		top := a.Fn
+		for top.Parent() != nil {
+			top = top.Parent()
+		}
+		k := "r:"
+		if a.Write {
+			k = "w:"
+		}
+		set[k+p.CanonFuncName(top)] = true
+	}
+	var out []string
+	for k := range set {
+		out = append(out, k)
+	}
+	sort.Strings(out)
+	return out
+}
+
+func (p *Program) computeFieldprints() map[string]fieldPrint {
+	ix := BuildIndex(p)
+	out := map[string]fieldPrint{}
+	for fr := range ix.Accesses {
+		_, ft := p.declaredIn(relOf(fr.Pkg), fr.Type, fr.Field)
+		if ft == nil {
+			continue
+		}
+		out[fr.String()] = fieldPrint{Typ: canonTypeString(ft), Users: p.fieldUsers(ix, fr)}
+	}
+	return out
+}
+
+func resolveFieldsByFingerprint(p *Program) {
+	fieldMatches = 0
+	var ref map[string]fieldPrint
+	if err := json.Unmarshal(fieldprintsJSON, &ref); err != nil || len(ref) == 0 {
+		return
+	}
+	ix := BuildIndex(p)
+	// current fields per struct
+	cur := map[string][]FieldRef{} // "pkg.Type" -> refs
+	for fr := range ix.Accesses {
+		cur[fr.Pkg+"."+fr.Type] = append(cur[fr.Pkg+"."+fr.Type], fr)
+	}
+	refNames := map[string]bool{}
+	for k := range ref {
+		refNames[k] = true
+	}
+	type cand struct {
+		fr    FieldRef
+		score float64
+	}
+	best := map[string]cand{}
+	var keys []string
+	for k := range ref {
+		keys = append(keys, k)
+	}
+	sort.Strings(keys)
+	for _, k := range keys {
+		parts := strings.SplitN(k, ".", 3)
+		if len(parts) != 3 {
+			continue
+		}
+		pkg, typ, field := parts[0], parts[1], parts[2]
+		if _, mapped := toActual[k]; mapped {
+			continue
+		}
+		if n, _ := p.declaredIn(relOf(pkg), typ, field); n != nil {
+			continue // still there under its upstream name
+		}
+		var cs []cand
+		for _, fr := range cur[pkg+"."+typ] {
+			if refNames[fr.String()] {
+				continue
+			}
+			if _, isCanon := toCanonical[fr.String()]; isCanon {
+				continue
+			}
+			_, ft := p.declaredIn(relOf(pkg), typ, fr.Field)
+			if ft == nil || canonTypeString(ft) != ref[k].Typ {
+				continue
+			}
+			cs = append(cs, cand{fr, jaccard(ref[k].Users, p.fieldUsers(ix, fr))})
+		}
+		sort.Slice(cs, func(i, j int) bool { return cs[i].score > cs[j].score })
+		if len(cs) == 0 || cs[0].score < 0.5 {
+			continue
+		}
+		if len(cs) > 1 && cs[0].score-cs[1].score < 0.15 {
+			continue
+		}
+		best[k] = cs[0]
+	}
+	taken := map[FieldRef]int{}
+	for _, c := range best {
+		taken[c.fr]++
+	}
+	for k, c := range best {
+		if taken[c.fr] != 1 {
+			continue
+		}
+		parts := strings.SplitN(k, ".", 3)
+		pkg, typ, field := parts[0], parts[1], parts[2]
+		toActual[k] = c.fr.Field
+		toCanonical[pkg+"."+typ+"."+c.fr.Field] = field
+		if n, _ := p.declaredIn(relOf(pkg), typ, c.fr.Field); n != nil && typeCanonName(n.Obj()) != typ {
+			part := typeCanonName(n.Obj())
+			toActual[pkg+"."+part+"."+field] = c.fr.Field
+			toCanonical[pkg+"."+part+"."+c.fr.Field] = field
+		}
+		fieldMatches++
+		rolesRenamed++
 	}
 }
